@@ -461,6 +461,11 @@ def replay(ctx, case):
         check_mixed(ctx, case)
     elif 'ratio' in case:
         check_s3(ctx, case)
+    elif case.get('rate') == 0:
+        kept = run_history(0, case['seed'], case['n'], vary=True).count('S')
+        if kept:
+            raise Violation('%d of %d unforced recordings were kept at sampling rate 0' % (kept, case['n']),
+                            'history-rate-0')
     else:
         check_history(ctx, case)
 
@@ -475,6 +480,20 @@ def run(ctx):
             guarded(ctx, case, lambda c: check_s3(ctx, c))
     if ctx.violations:
         return
+    if ctx.shard == 0:
+        # rate 0 means never: a long unforced history keeps nothing (a draw is compared with the rate as it is, so even
+        # the smallest draws stay outside it)
+        case = {'rate': 0, 'seed': 3 + ctx.seed, 'n': ctx.pick(20000, 200000)}
+        ctx.case(case, True, classes=('history:rate-0',))
+
+        def zero(c):
+            kept = run_history(0, c['seed'], c['n'], vary=True).count('S')
+            if kept:
+                raise Violation('%d of %d unforced recordings were kept at sampling rate 0' % (kept, c['n']),
+                                'history-rate-0')
+        guarded(ctx, case, zero)
+        if ctx.violations:
+            return
     seeds = [1, 7, 12345][:ctx.pick(1, 3)]
     for rate in (0.1, 0.5, 0.9):
         for seed in seeds:
